@@ -227,7 +227,7 @@ pub open spec fn rtt_updated(h0: RttCalcuator, h1: RttCalcuator, r: Duration) ->
 //@item! stun_agent :: mod client > struct StunClient
 
 //@item stun_agent :: mod client > fn process_integrity_error
-//@tags C05 C07 C08 C17
+//@tags C03 C05 C06 C07 C08 C10 C11 C12 C13 C15 C17
 //@spec
     ensures match error {
         IntegrityError::ProtectionViolated => r == Ok::<Option<StunClientEvent>, StunAgentError>(Some(StunClientEvent::TransactionFailed((*transaction_id, StunTransactionError::ProtectionViolated)))),
@@ -239,14 +239,14 @@ pub open spec fn rtt_updated(h0: RttCalcuator, h1: RttCalcuator, r: Duration) ->
 
 
 //@item stun_agent :: mod client > fn encode_buffer
-//@tags C13 C06 C03
+//@tags C03 C05 C06 C07 C08 C10 C11 C12 C13 C15 C17
 //@sub "encoder.encode(&mut buffer, msg)" => "encoder.encode(buffer.as_mut_slice(), msg)"
 //@spec
     ensures r is Ok <==> encodes_ok(*msg, buffer@.len() as int),
         r is Ok ==> r->Ok_0@ == wire_of(*msg),
 //@end
 //@item stun_agent :: mod client > fn prepare_stun_message
-//@tags C13 C10
+//@tags C03 C05 C06 C07 C08 C10 C11 C12 C13 C15 C17
 //@stmt "if use_fingerprint"
     let ghost s1 = *attributes;
     proof {
@@ -429,7 +429,7 @@ impl StunClient {
         &&& forall|id: TransactionId| #[trigger] self.transactions@.contains_key(id) ==> self.tr_ok(id)
     }
 //@item stun_agent :: mod client > impl StunClient > fn transaction_finished
-//@tags C05 C12 C15 C11
+//@tags C03 C05 C06 C07 C08 C10 C11 C12 C13 C15 C17
 //@head
     broadcast use axiom_txid_key_model;
     let ghost ms0 = self.timeouts.ms();
@@ -456,7 +456,7 @@ impl StunClient {
         finish_rtt_rel(old(self).rtt, final(self).rtt, old(self).transactions@, *transaction_id, instant),
 //@end
 //@item stun_agent :: mod client > impl StunClient > fn set_timeout
-//@tags C06 C15 C11 C12
+//@tags C03 C05 C06 C07 C08 C10 C11 C12 C13 C15 C17
 //@closure 1
 || -> (e: StunAgentError)
     ensures e is InternalError,
@@ -523,7 +523,7 @@ impl StunClient {
         }
     }
 //@item stun_agent :: mod client > impl StunClient > fn prepare_request
-//@tags C13
+//@tags C03 C05 C06 C07 C08 C10 C11 C12 C13 C15 C17
 //@spec
     requires old(attributes).wf(), old(self).mechanism is Some ==> old(self).mechanism->Some_0.wf(),
     ensures final(self).mechanism is Some ==> final(self).mechanism->Some_0.wf(),
@@ -537,7 +537,7 @@ impl StunClient {
         r is Ok ==> prepared(true, old(self).mechanism, old(self).use_fingerprint, *old(attributes), *final(attributes)),
 //@end
 //@item stun_agent :: mod client > impl StunClient > fn prepare_indication
-//@tags C13
+//@tags C03 C05 C06 C07 C08 C10 C11 C12 C13 C15 C17
 //@spec
     requires old(attributes).wf(), old(self).mechanism is Some ==> old(self).mechanism->Some_0.wf(),
     ensures final(self).mechanism is Some ==> final(self).mechanism->Some_0.wf(),
@@ -551,7 +551,7 @@ impl StunClient {
         r is Ok ==> prepared(false, old(self).mechanism, old(self).use_fingerprint, *old(attributes), *final(attributes)),
 //@end
 //@item stun_agent :: mod client > impl StunClient > fn send_request
-//@tags C12 C11 C05 C06 C13 C15
+//@tags C03 C05 C06 C07 C08 C10 C11 C12 C13 C15 C17
 //@rules R11
 //@closure 1
 |e: StunEncodeError| -> (x: StunAgentError)
@@ -652,7 +652,7 @@ impl StunClient {
         },
 //@end
 //@item stun_agent :: mod client > impl StunClient > fn send_indication
-//@tags C12 C05 C13 C11
+//@tags C03 C05 C06 C07 C08 C10 C11 C12 C13 C15 C17
 //@rules R11
 //@spec
     requires old(self).wf(), attributes.wf(),
@@ -688,7 +688,7 @@ impl StunClient {
         r@ == old(self).transaction_events.events@, final(self).transaction_events.events@.len() == 0,
 //@end
 //@item stun_agent :: mod client > impl StunClient > fn on_buffer_recv
-//@tags C05 C12 C17 C10 C03 C07 C08 C15
+//@tags C03 C05 C06 C07 C08 C10 C11 C12 C13 C15 C17
 //@rules R11
 //@closure 1
 |e: StunDecodeError| -> (x: StunAgentError)
@@ -786,7 +786,7 @@ impl StunClient {
         }
     }
 //@item stun_agent :: mod client > impl StunClient > fn on_timeout
-//@tags C05 C06 C11 C12 C07 C15
+//@tags C03 C05 C06 C07 C08 C10 C11 C12 C13 C15 C17
 //@rules R3V R6? R11
 //@sub "self.transactions.get_mut(&transaction_id)" => "vx_tr_get_mut(&mut self.transactions, &transaction_id)"
 //@head
@@ -971,7 +971,7 @@ impl StunClient {
 //@item! stun_agent :: mod client > enum TransportReliability
 impl Default for RttConfig {
 //@item stun_agent :: mod client > impl Default for RttConfig > fn default
-//@tags C06 C15 C19
+//@tags C03 C05 C06 C07 C08 C10 C11 C12 C13 C15 C17 C19
 //@spec
     // RFC 8489 6.2.1: RTO 500 ms, Rm 16, Rc 7; clock granularity 1 ms
     ensures r.rto.ns@ == 500_000_000, r.granularity.ns@ == 1_000_000, r.rm == 16, r.rc == 7,
@@ -983,7 +983,7 @@ impl vstd::std_specs::convert::FromSpecImpl<TransportReliability> for StunRttCal
 }
 impl From<TransportReliability> for StunRttCalcuator {
 //@item stun_agent :: mod client > impl From<TransportReliability> for StunRttCalcuator > fn from
-//@tags C06 C15 C19
+//@tags C03 C05 C06 C07 C08 C10 C11 C12 C13 C15 C17 C19
 //@spec
     // a reliable transport keeps its single time-out; an unreliable one starts with the configured RTO, no sample, Rm and Rc as given
     // (the representation invariant of the client needs Rc <= 31: 2^(Rc-1) is computed in 32 bits)
@@ -1042,14 +1042,14 @@ pub open spec fn reliability_ok(t: TransportReliability) -> bool {
 }
 impl StunClienteBuilder {
 //@item stun_agent :: mod client > impl StunClienteBuilder > fn new
-//@tags C12 C10 C06 C19
+//@tags C03 C05 C06 C07 C08 C10 C11 C12 C13 C15 C17 C19
 //@spec
     // RFC-independent defaults: no credentials, no FINGERPRINT, ten outstanding requests
     ensures r.0.reliability == reliability, r.0.mechanism is None, r.0.user_name is None, r.0.password is None,
         !r.0.fingerprint, r.0.max_transactions == 10,
 //@end
 //@item stun_agent :: mod client > impl StunClienteBuilder > fn with_max_transactions
-//@tags C12 C19
+//@tags C03 C05 C06 C07 C08 C10 C11 C12 C13 C15 C17 C19
 //@rules R5?
 //@spec
     // exactly the limit asked for (0 included: such a client refuses every request), nothing else touched
@@ -1057,7 +1057,7 @@ impl StunClienteBuilder {
         r.0.user_name == self.0.user_name, r.0.password == self.0.password, r.0.fingerprint == self.0.fingerprint,
 //@end
 //@item stun_agent :: mod client > impl StunClienteBuilder > fn with_mechanism
-//@tags C07 C08 C19
+//@tags C03 C05 C06 C07 C08 C10 C11 C12 C13 C15 C17 C19
 //@rules R5?
 //@sig
     pub fn with_mechanism(self, user_name: String, password: String, mechanism: CredentialMechanism) -> (r: Self)
@@ -1068,14 +1068,14 @@ impl StunClienteBuilder {
         r.0.max_transactions == self.0.max_transactions, r.0.reliability == self.0.reliability, r.0.fingerprint == self.0.fingerprint,
 //@end
 //@item stun_agent :: mod client > impl StunClienteBuilder > fn with_fingerprint
-//@tags C10 C19
+//@tags C03 C05 C06 C07 C08 C10 C11 C12 C13 C15 C17 C19
 //@rules R5?
 //@spec
     ensures r.0.fingerprint, r.0.max_transactions == self.0.max_transactions, r.0.reliability == self.0.reliability,
         r.0.mechanism == self.0.mechanism, r.0.user_name == self.0.user_name, r.0.password == self.0.password,
 //@end
 //@item stun_agent :: mod client > impl StunClienteBuilder > fn build
-//@tags C12 C10 C06 C07 C08 C19
+//@tags C03 C05 C06 C07 C08 C10 C11 C12 C13 C15 C17 C19
 //@spec
     ensures r is Ok ==> client_as_configured(r->Ok_0, self.0),
 //@end
@@ -1099,7 +1099,7 @@ pub open spec fn client_as_configured(c: StunClient, p: StunClientParameters) ->
 }
 impl StunClient {
 //@item stun_agent :: mod client > impl StunClient > fn new
-//@tags C12 C10 C06 C07 C08 C05 C19
+//@tags C03 C05 C06 C07 C08 C10 C11 C12 C13 C15 C17 C19
 //@closure 1
 || -> (e: StunAgentError)
     ensures e is InternalError,
